@@ -496,18 +496,22 @@ DRIVERS = {
 }
 
 
-def drift_prefixes(name, p, maxlen=5, limit=3):
+def drift_prefixes(name, p, maxlen=5, limit=3, seeder=None):
     """Shortest update sequences (driver alphabet) after which the real detector reports drift:
     scripted starts from non-initial states, so that second and third epochs lie deep inside the bound."""
     d = DRIVERS[name]
     np.random.seed(12345)
     found = []
+    if seeder:
+        seeder("init")
     frontier = [((), d.make(p))]
-    for _ in range(maxlen):
+    for pos in range(maxlen):
         nxt = []
         for pre, det in frontier:
             for sym in (d.enabled(det) if name == "MD3" else d.alphabet(p)):
                 x = copy.deepcopy(det)
+                if seeder:
+                    seeder(pos)
                 try:
                     d.feed(x, sym, p)
                 except Exception:
